@@ -369,6 +369,11 @@ def large_values():
         [('name%d' % i, {'a': i, 'b': [i] * 5, 'c': 'text ' * 6}) for i in range(12)],
         {('k', i): frozenset({i, i + 1}) for i in range(20)},
         [1.5, -0.0, float('inf'), None, True, ...] * 8,
+        # equal-but-distinguishable scalars (1 == 1.0 == True, 0 == 0.0 == -0.0 == False) in long sequences: type-exact round trip
+        [1, 1.0, True, 0, 0.0, -0.0, False, 2, 2.0] + list(range(100, 140)),
+        tuple(list(range(100, 135)) + [0.0, -0.0, 0, False, 1.0, 1, True]),
+        [True, 1, 1.0] * 15, [0.0, 0, -0.0, False] * 10,
+        ['a', b'a', 'a', b'a'] * 10,
     ]
     deep = 0
     for _ in range(14):
